@@ -152,7 +152,7 @@ func evalCDI(c Case, root string) hx.Result {
 		if len(args) > 0 && args[0] == "inject" {
 			// args: inject <format-in> <format-out> patterns...
 			in, outFmt, patterns := args[1], args[2], args[3:]
-			shape := gen.OCIShapes()[5].Make()
+			shape := injectShape()
 			if in == "json" {
 				ociFile = filepath.Join(root, "oci.json")
 				b, _ := json.Marshal(shape)
@@ -179,7 +179,7 @@ func evalCDI(c Case, root string) hx.Result {
 					}
 				}
 			}
-			injectWant = gen.OCIShapes()[5].Make()
+			injectWant = injectShape()
 			_, injectErr = lib.InjectDevices(injectWant, sel...)
 		}
 		out, code := run(cdiBin, nil, root, append(argv, args...)...)
@@ -277,6 +277,28 @@ func evalCDI(c Case, root string) hx.Result {
 		}
 		return hx.Result{Outcome: "matches:" + c.Args[0], Nontrivial: len(obs.Devices) > 0 || len(libErrs) > 0}
 	})
+}
+
+// injectShape: the OCI spec handed to 'cdi inject': a busy one, with numbers that do not survive a
+// trip through a float64 or a 32-bit integer (the tool must print them as the library has them)
+func injectShape() *oci.Spec {
+	s := gen.OCIShapes()[5].Make()
+	if s.Linux == nil {
+		s.Linux = &oci.Linux{}
+	}
+	big, neg := int64(9007199254740993), int64(-9223372036854775808)
+	u32max := uint32(4294967295)
+	if s.Linux.Resources == nil {
+		s.Linux.Resources = &oci.LinuxResources{}
+	}
+	s.Linux.Resources.Memory = &oci.LinuxMemory{Limit: &big, Swap: &neg}
+	s.Linux.Devices = append(s.Linux.Devices, oci.LinuxDevice{Path: "/dev/big-numbers", Type: "c", Major: 1048576, Minor: 9223372036854775807, UID: &u32max})
+	if s.Process == nil {
+		s.Process = &oci.Process{}
+	}
+	s.Process.User.UID = 4000000000
+	s.Process.User.AdditionalGids = append(s.Process.User.AdditionalGids, 1000000, u32max)
+	return s
 }
 
 func btoi(b bool) int {
